@@ -26,6 +26,7 @@ EXHAUSTIVE = {
     "thorough": {"shapes with <= 64 cells, N<=4": "complete", "tt_dimscheck N<=5: all subsets x all orders (<=24) x M": "complete",
                  "row matrices: all pairs of row lists of length <= 3 over alphabet {0,1} with 1 column and length <=2 with 2 columns": "complete"},
 }
+NPINT_ARGS = True     # a quarter of the cases pass their integer arguments as NumPy integers (core.Ctx.begin)
 WATCHDOG = {"quick": 600, "thorough": 3000}
 
 
